@@ -241,7 +241,7 @@ func (c *caseCtx) checkOneFilter(f sqlgen.Filter, rows []reflect.Value, feats []
 	var pb *thunderpb.SQLFilter
 	var err error
 	if pn := safely(func() { pb, err = livesql.FilterToProto(c.z.schema, ti.name, f) }); pn != nil {
-		c.run.Violation(c.i, classifyFilterPanic(c, f, "FilterToProto"), fw(map[string]interface{}{"what": "FilterToProto panicked (neither an error nor a filter)", "panic": fmt.Sprint(pn)}))
+		c.violate(classifyFilterPanic(c, f, "FilterToProto"), fw(map[string]interface{}{"what": "FilterToProto panicked (neither an error nor a filter)", "panic": fmt.Sprint(pn)}))
 		return
 	}
 	if err != nil {
@@ -250,7 +250,7 @@ func (c *caseCtx) checkOneFilter(f sqlgen.Filter, rows []reflect.Value, feats []
 	}
 	want := c.testAll(f, rows)
 	if want.panic != "" {
-		c.run.Violation(c.i, classifyFilterPanic(c, f, "Test"), fw(map[string]interface{}{"what": "MakeTester/Test panicked on a filter FilterToProto accepted", "panic": want.panic}))
+		c.violate(classifyFilterPanic(c, f, "Test"), fw(map[string]interface{}{"what": "MakeTester/Test panicked on a filter FilterToProto accepted", "panic": want.panic}))
 		return
 	}
 
@@ -259,7 +259,7 @@ func (c *caseCtx) checkOneFilter(f sqlgen.Filter, rows []reflect.Value, feats []
 		var g sqlgen.Filter
 		var err error
 		if pn := safely(func() { table, g, err = livesql.FilterFromProto(c.z.schema, src) }); pn != nil {
-			c.run.Violation(c.i, "", fw(map[string]interface{}{"what": "FilterFromProto panicked", "stage": stage, "panic": fmt.Sprint(pn)}))
+			c.violate("", fw(map[string]interface{}{"what": "FilterFromProto panicked", "stage": stage, "panic": fmt.Sprint(pn)}))
 			return
 		}
 		if err != nil {
@@ -268,7 +268,7 @@ func (c *caseCtx) checkOneFilter(f sqlgen.Filter, rows []reflect.Value, feats []
 		}
 		c.run.Count("filter:round_tripped:"+stage, 1)
 		if table != ti.name {
-			c.run.Violation(c.i, "", fw(map[string]interface{}{"what": "table name changed through the protobuf encoding", "stage": stage, "got": table}))
+			c.violate("", fw(map[string]interface{}{"what": "table name changed through the protobuf encoding", "stage": stage, "got": table}))
 		}
 		got := c.testAll(g, rows)
 		for _, h := range want.hits {
@@ -277,7 +277,7 @@ func (c *caseCtx) checkOneFilter(f sqlgen.Filter, rows []reflect.Value, feats []
 			}
 		}
 		if got.String() != want.String() {
-			c.run.Violation(c.i, classifyFilterMismatch(c, f, g, rows, want, got), fw(map[string]interface{}{"what": "the filter matches different rows after FilterToProto/FilterFromProto", "stage": stage,
+			c.violate(classifyFilterMismatch(c, f, g, rows, want, got), fw(map[string]interface{}{"what": "the filter matches different rows after FilterToProto/FilterFromProto", "stage": stage,
 				"decoded_filter": showFilter(g), "test_f": want.String(), "test_g": got.String()}))
 		}
 	}
@@ -286,7 +286,7 @@ func (c *caseCtx) checkOneFilter(f sqlgen.Filter, rows []reflect.Value, feats []
 	var wire []byte
 	var merr error
 	if pn := safely(func() { wire, merr = pb.Marshal() }); pn != nil {
-		c.run.Violation(c.i, "", fw(map[string]interface{}{"what": "SQLFilter.Marshal panicked", "panic": fmt.Sprint(pn)}))
+		c.violate("", fw(map[string]interface{}{"what": "SQLFilter.Marshal panicked", "panic": fmt.Sprint(pn)}))
 		return
 	}
 	if merr != nil {
@@ -295,7 +295,7 @@ func (c *caseCtx) checkOneFilter(f sqlgen.Filter, rows []reflect.Value, feats []
 	}
 	pb2 := &thunderpb.SQLFilter{}
 	if err := pb2.Unmarshal(wire); err != nil {
-		c.run.Violation(c.i, "", fw(map[string]interface{}{"what": "SQLFilter does not unmarshal from its own Marshal output", "err": err.Error()}))
+		c.violate("", fw(map[string]interface{}{"what": "SQLFilter does not unmarshal from its own Marshal output", "err": err.Error()}))
 		return
 	}
 	compare("wire", pb2)
